@@ -159,6 +159,79 @@ Section JWT.
     rewrite andb_true_iff, !negb_true_iff. destruct v; cbn; intuition congruence.
   Qed.
 
+  (* ---- the error ParseToken reports ------------------------------------- *)
+
+  Lemma err1_zero : forall now k cr,
+    err1 mac now k cr = 0 <-> exists t, cr = CToken t /\ parse1 mac now k t = true.
+  Proof.
+    intros now k cr. destruct cr as [| |t]; cbn [err1].
+    - split; [discriminate|intros (t & X & _); discriminate].
+    - split; [discriminate|intros (t & X & _); discriminate].
+    - unfold parse1, time_ok.
+      assert (G : (if sig_ok mac k t
+                   then (if exp_ok now t then 0 else 16) + (if iat_ok now t then 0 else 32) + (if nbf_ok now t then 0 else 128)
+                   else 4) = 0 <-> sig_ok mac k t && (exp_ok now t && iat_ok now t && nbf_ok now t) = true).
+      { destruct (sig_ok mac k t), (exp_ok now t), (iat_ok now t), (nbf_ok now t); cbn; split; (discriminate || reflexivity). }
+      destruct (talg t) eqn:A;
+        try (rewrite G; split; [intros X; exists t; split; [reflexivity|exact X]|intros (t' & X & Y); inversion X; subst t'; exact Y]).
+      split; [discriminate|]. intros (t' & X & Y). inversion X; subst t'.
+      unfold sig_ok in Y. rewrite A in Y. cbn in Y. discriminate.
+  Qed.
+
+  (* no error is reported exactly for the accepted credentials, whatever the counters *)
+  Lemma parse_err_zero : forall h c now cr,
+    parse_err mac h c now cr = 0 <-> Accepts c now cr.
+  Proof.
+    intros h c now cr. unfold parse_err, Accepts.
+    assert (V : forall t, Valid c now t <->
+                match jprev c with
+                | Some p => parse1 mac now (jsecret c) t = true \/ parse1 mac now p t = true
+                | None => parse1 mac now (jsecret c) t = true
+                end).
+    { intros t. rewrite <- (parse_token_spec false []), parse_token_bool.
+      destruct (jprev c); [apply orb_true_iff|reflexivity]. }
+    destruct (jprev c) as [p|].
+    - assert (X : forall a b, (if err1 mac now a cr =? 0 then 0 else err1 mac now b cr) = 0 <->
+                  exists t, cr = CToken t /\ (parse1 mac now a t = true \/ parse1 mac now b t = true)).
+      { intros a b. destruct (err1 mac now a cr =? 0) eqn:Z0.
+        - apply Z.eqb_eq in Z0. apply err1_zero in Z0. destruct Z0 as (t & E1 & P1).
+          split; [intros _; exists t; auto|reflexivity].
+        - apply Z.eqb_neq in Z0. rewrite err1_zero. split.
+          + intros (t & E1 & P1). exists t. auto.
+          + intros (t & E1 & [P1|P1]); [|exists t; auto].
+            exfalso. apply Z0. apply err1_zero. exists t. auto. }
+      destruct (load_count h (jsecret c) >? load_count h p); cbv iota beta; rewrite X.
+      + split; intros (t & E1 & P1); exists t; (split; [exact E1|]); apply V; exact P1 || (apply V in P1; exact P1).
+      + split; intros (t & E1 & P1); exists t; (split; [exact E1|]).
+        * apply V. tauto.
+        * apply V in P1. tauto.
+    - rewrite err1_zero. split; intros (t & E1 & P1); exists t; (split; [exact E1|]); apply V; exact P1 || (apply V in P1; exact P1).
+  Qed.
+
+  (* the token parser driven directly, every call with its own secrets, over any sequence of
+     calls, with or without the history reset: a token is returned exactly for the calls whose
+     credential is valid under the secrets of THAT call *)
+  Lemma run_parser_ok : forall rs calls h,
+    Forall2 (fun cl e => e = 0 <-> Accepts (fst (fst cl)) (snd (fst cl)) (snd cl)) calls (run_parser mac rs h calls).
+  Proof.
+    intros rs calls. induction calls as [|[[c now] cr] calls IH]; intros h; cbn [run_parser].
+    - constructor.
+    - constructor; [cbn [fst snd]; apply parse_err_zero|apply IH].
+  Qed.
+
+  Lemma run_jwt_err_ok : forall c reqs h,
+    Forall2 (fun rq re => (snd re = 0 <-> jran (fst re) = true) /\ ReqOk c rq (fst re)) reqs (run_jwt_err mac h c reqs).
+  Proof.
+    intros c reqs. induction reqs as [|[now cr] reqs IH]; intros h; cbn [run_jwt_err].
+    - constructor.
+    - pose proof (authorize_ran h c now cr) as A.
+      pose proof (authorize_result h c now cr) as B.
+      pose proof (parse_err_zero h c now cr) as P.
+      destruct (authorize mac h c now cr) as [h' r]. cbn [snd] in A, B.
+      constructor; [|apply IH]. cbn [fst snd]. split; [rewrite P, A; reflexivity|].
+      unfold ReqOk. cbn [fst snd]. destruct B as [B1 B2]. auto.
+  Qed.
+
   (* ---- single-field mutations ------------------------------------------- *)
 
   (* the explicit no-collision hypothesis: mac is injective on a set of (alg, key, input) *)
